@@ -50,6 +50,9 @@ for d, c, err in ex.map(run_seed, dirs):
         "check_result": {"cmd": "./check %s quick (with the change applied to a scratch copy of /repo's tree, VERIF_REPO; confirmed equivalent to applying it to /repo)" % pid, "exit": c.returncode, "violation_signatures": sigs[:6]},
     }
     mp = os.path.join(d, "meta.json")
+    if os.environ.get("NO_META"):
+        print(name, "exit", c.returncode, sigs[:2], flush=True)
+        continue
     if os.path.exists(mp):
         try:
             old = json.load(open(mp))
